@@ -560,8 +560,12 @@ impl<T: Encode + BitStore, O: BitOrder> Encode for BitVec<T, O> {
         session: &mut Session,
     ) -> io::Result<()> {
         encoder.emit_usize(self.len())?;
-        let underlying = self.as_raw_slice();
-        for item in underlying {
+        // the wire format is the storage of a vector whose first bit is bit 0
+        // of its first element; `split_off`/`from_bitslice` results keep the
+        // head offset of their source
+        let mut aligned = self.clone();
+        aligned.force_align();
+        for item in aligned.as_raw_slice() {
             item.encode(encoder, plugin, session)?;
         }
         Ok(())
